@@ -401,4 +401,61 @@ theorem mem_callsFrom (k : Kind) : ∀ (ovs : List Overload) (i : Nat) (c : Call
       | succ d =>
         exact Or.inr ⟨d, o', n, by simpa using hget, hn, hd, by rw [hc]; congr 1; omega⟩
 
+/-! ### the dict of wrapped classes -/
+
+theorem dictGet_luaClassesFrom_none (keyOf : QName → QName) : ∀ (qs : List QName) (i : Nat) (x : QName),
+    (∀ q ∈ qs, keyOf q ≠ x) → dictGet (luaClassesFrom keyOf i qs) x = none := by
+  intro qs
+  induction qs with
+  | nil => intro i x _; rfl
+  | cons q qs ih =>
+    intro i x h
+    simp only [luaClassesFrom, dictGet]
+    rw [ih (i + 1) x (fun q' hq' => h q' (List.mem_cons_of_mem _ hq'))]
+    simp [h q (List.mem_cons_self ..)]
+
+theorem dictGet_luaClassesFrom_nodup (keyOf : QName → QName) : ∀ (qs : List QName) (i j : Nat) (q : QName),
+    (qs.map keyOf).Nodup → qs[j]? = some q →
+    dictGet (luaClassesFrom keyOf i qs) (keyOf q) = some (i + j) := by
+  intro qs
+  induction qs with
+  | nil => intro i j q _ h; simp at h
+  | cons q0 qs ih =>
+    intro i j q hn h
+    simp only [List.map_cons, List.nodup_cons] at hn
+    cases j with
+    | zero =>
+      simp at h; subst h
+      simp only [luaClassesFrom, dictGet]
+      rw [dictGet_luaClassesFrom_none keyOf qs (i + 1) (keyOf q0)
+        (fun q' hq' he => hn.1 (List.mem_map.mpr ⟨q', hq', he⟩))]
+      simp
+    | succ j =>
+      simp only [List.getElem?_cons_succ] at h
+      simp only [luaClassesFrom, dictGet]
+      rw [ih (i + 1) j q hn.2 h]
+      simp; omega
+
+/-- whatever is found was inserted under the key asked for -/
+theorem dictGet_luaClassesFrom_some (keyOf : QName → QName) : ∀ (qs : List QName) (i k : Nat) (x : QName),
+    dictGet (luaClassesFrom keyOf i qs) x = some k → ∃ j q, k = i + j ∧ qs[j]? = some q ∧ keyOf q = x := by
+  intro qs
+  induction qs with
+  | nil => intro i k x h; simp [luaClassesFrom, dictGet] at h
+  | cons q0 qs ih =>
+    intro i k x h
+    simp only [luaClassesFrom, dictGet] at h
+    cases hr : dictGet (luaClassesFrom keyOf (i + 1) qs) x with
+    | some w =>
+      rw [hr] at h
+      simp at h; subst h
+      obtain ⟨j, q, hk, hq, he⟩ := ih (i + 1) w x hr
+      exact ⟨j + 1, q, by omega, by simpa using hq, he⟩
+    | none =>
+      rw [hr] at h
+      by_cases he : keyOf q0 = x
+      · simp [he] at h
+        exact ⟨0, q0, by omega, by simp, he⟩
+      · simp [he] at h
+
 end Shroud.LuaDispatch
